@@ -256,6 +256,8 @@ theorem add_nodup (st st' : St) (r : Rec) (h : NoDup st) (he : add st r = .ok st
   split at he
   · split at he <;> cases he
   split at he
+  · cases he
+  split at he
   · split at he
     · cases he
     · rename_i l _
@@ -272,6 +274,13 @@ theorem add_nodup (st st' : St) (r : Rec) (h : NoDup st) (he : add st r = .ok st
       · rename_i i hfound
         obtain ⟨hi, hp⟩ := findIdx_some_lt _ _ _ hfound
         exact addOnto_nodup st st' r n i h hi (by simpa using hp) hn he
+
+/-- **a line that mentions its own identifier is refused** (the placeholder for the mention would carry the same
+    identifier), whatever the state -/
+theorem add_selfref_raises (st : St) (r : Rec) (h1 : allowed st.ver r.rt = true)
+    (h2 : ¬ (r.rt = .S ∧ segSyntax r ≠ some st.ver)) (h3 : selfRef r = true) : add st r = .error .notUnique := by
+  unfold add
+  simp [h1, h2, h3]
 
 end Gfa.C09
 
